@@ -1418,10 +1418,19 @@ def gen_edit(ch, w, sw):
         for _ in range(6):
             src, dst = ch.randint(1, n - 2), ch.randint(1, n - 2)
             if m.pickup_ok(src, attr, dst):
-                sc = ch.pick([1, -1, 1.0, -1.0, 2, 0.5,
+                sc = ch.pick([1, -1, 1.0, -1.0, 2, 0.5, 0, 0.0,
                               ch.rounded(ch.uniform(-2, 2), 3)], tag='psc')
                 off = ch.pick([0, 0.0, ch.rounded(ch.uniform(-3, 3), 3)],
                               tag='poff')
+                if sc == 0:
+                    # a constant pickup: target = offset
+                    if attr == 'radius':
+                        if m.is_plane(src):
+                            continue
+                        off = ch.rounded(ch.uniform(20, 200), 4) * \
+                            ch.pick([1, -1])
+                    elif attr == 'thickness':
+                        off = ch.rounded(ch.uniform(0.5, 20), 4)
                 return {'op': 'pickup', 'src': src, 'attr': attr, 'dst': dst,
                         'scale': sc, 'offset': off}
         return None
